@@ -79,7 +79,7 @@ def gen_h(g, rng, n, kind=None):
 
 def gen_case(rng, tier, small=False):
     g = np.random.default_rng(rng.getrandbits(48))
-    n = rng.randint(1, 6 if small else (128 if (tier == "thorough" or rng.random() < 0.15) else 40))
+    n = rng.randint(1, 6 if small else (128 if rng.random() < (0.4 if tier == "thorough" else 0.15) else 40))
     kind, h = gen_h(g, rng, n)
     v = g.normal(size=n) + 1j * g.normal(size=n)
     if rng.random() < 0.1:
@@ -420,9 +420,9 @@ def check(rep: Report, tier: str, seed: int) -> None:
     lean_thread.start()
     rng = seeded(seed * 7919 + 8)
     torch.manual_seed(seed)
-    n_or = 170 if tier == "quick" else 6000
-    n_co = 90 if tier == "quick" else 3000
-    n_dense = 40 if tier == "quick" else 1500
+    n_or = 170 if tier == "quick" else 2000
+    n_co = 90 if tier == "quick" else 1000
+    n_dense = 40 if tier == "quick" else 500
     lines, metas = [], []
     worst_ray, worst_res = 0.0, 0.0
 
@@ -484,7 +484,10 @@ def check(rep: Report, tier: str, seed: int) -> None:
     rep.extra["worst_residual_over_threshold"] = worst_res
     slines, swants = step_lines(rng, 200 if tier == "quick" else 20000)
 
+    import time as _t
+    rep.extra["t_python_side_s"] = round(_t.time() - rep.t0, 1)
     lean_thread.finish()
+    rep.extra["t_lean_stage_done_s"] = round(_t.time() - rep.t0, 1)
     try:
         replies = Driver().batch(lines + slines)
     except LeanError as e:
